@@ -102,7 +102,7 @@ class Check:
         harness = [self.pid.lower()] if harness is None else harness
         units = units or []
         self.harness_bins = harness
-        with Lock():
+        with Lock("build." + self.pid):
             rc, out, dt = sh([os.path.join(V, "bin/mkharness")] + harness + units, timeout=900)
             self.log.write(out)
             self.harness_ok = rc == 0
